@@ -93,6 +93,11 @@ class RestoreRule(FactRule):
 def count_up_loop(ck, prog, config, clause, fn):
     """validate_checksums: while(rlen < comp_length) { rsize = min(BUF, comp_length - rlen); read(buf, rsize);
     hash(buf, rb); rlen += rsize }"""
+    # semantic form (any loop spelling, counting up or down, step by if / ternary / helper): linear values per path,
+    # Fourier-Motzkin for  step <= what is left
+    from ..rules.consume import check_consume_loop
+    return check_consume_loop(ck, prog, config, clause, fn, 'idx->comp_length', [('read_data', 2)],
+                              rule_name='R4.chunk-loop', mode='either', instance='scan-loop')
     subst = unique_defs(fn)
     ok = False
     detail = 'no count-up loop over comp_length'
